@@ -1,0 +1,359 @@
+//go:build verif
+
+package protocol
+
+import (
+	"fmt"
+	"io"
+	"net"
+	"time"
+
+	"github.com/enfein/mieru/v3/pkg/appctl/appctlpb"
+	"github.com/enfein/mieru/v3/pkg/cipher"
+	"github.com/enfein/mieru/v3/pkg/common"
+	"github.com/enfein/mieru/v3/pkg/protocol/serveruser"
+)
+
+// Exports for the external verification harness (property C09). Add-only; compiled only with -tags verif.
+
+const (
+	VerifC09StreamOverhead          = streamOverhead
+	VerifC09PacketOverhead          = packetOverhead
+	VerifC09PacketNonHeaderPosition = packetNonHeaderPosition
+	VerifC09MaxPDU                  = maxPDU
+)
+
+// VerifC09ProtocolNumbers lists the protocol type numbers in declaration order:
+// closeConnRequest, closeConnResponse, openSessionRequest, openSessionResponse, closeSessionRequest,
+// closeSessionResponse, dataClientToServer, dataServerToClient, ackClientToServer, ackServerToClient,
+// dataClientToServerLowEntropy, dataServerToClientLowEntropy.
+func VerifC09ProtocolNumbers() []int64 {
+	return []int64{
+		int64(closeConnRequest), int64(closeConnResponse), int64(openSessionRequest), int64(openSessionResponse),
+		int64(closeSessionRequest), int64(closeSessionResponse), int64(dataClientToServer), int64(dataServerToClient),
+		int64(ackClientToServer), int64(ackServerToClient), int64(dataClientToServerLowEntropy), int64(dataServerToClientLowEntropy),
+	}
+}
+
+// VerifC09Meta is the union of the fields of sessionStruct and dataAckStruct.
+type VerifC09Meta struct {
+	Proto        uint8
+	Timestamp    uint32
+	SessionID    uint32
+	Seq          uint32
+	StatusCode   uint8
+	PayloadLen   uint16
+	SuffixLen    uint8
+	UnAckSeq     uint32
+	WindowSize   uint16
+	Fragment     uint8
+	PrefixLen    uint8
+	LEMode       uint8
+	LEMask       uint32
+	ExtractedLen uint16
+	LERot        uint8
+}
+
+func (m VerifC09Meta) session() *sessionStruct {
+	return &sessionStruct{
+		baseStruct: baseStruct{protocol: m.Proto, timestamp: m.Timestamp},
+		sessionID:  m.SessionID,
+		seq:        m.Seq,
+		statusCode: m.StatusCode,
+		payloadLen: m.PayloadLen,
+		suffixLen:  m.SuffixLen,
+	}
+}
+
+func (m VerifC09Meta) dataAck() *dataAckStruct {
+	return &dataAckStruct{
+		baseStruct:             baseStruct{protocol: m.Proto, timestamp: m.Timestamp},
+		lowEntropyMode:         m.LEMode,
+		sessionID:              m.SessionID,
+		seq:                    m.Seq,
+		unAckSeq:               m.UnAckSeq,
+		windowSize:             m.WindowSize,
+		fragment:               m.Fragment,
+		prefixLen:              m.PrefixLen,
+		payloadLen:             m.PayloadLen,
+		suffixLen:              m.SuffixLen,
+		lowEntropyMask:         m.LEMask,
+		extractedPayloadLen:    m.ExtractedLen,
+		lowEntropyMaskRotation: m.LERot,
+	}
+}
+
+func verifC09FromMetadata(md metadata) VerifC09Meta {
+	switch v := md.(type) {
+	case *sessionStruct:
+		return VerifC09Meta{Proto: v.protocol, Timestamp: v.timestamp, SessionID: v.sessionID, Seq: v.seq,
+			StatusCode: v.statusCode, PayloadLen: v.payloadLen, SuffixLen: v.suffixLen}
+	case *dataAckStruct:
+		return VerifC09Meta{Proto: v.protocol, Timestamp: v.timestamp, SessionID: v.sessionID, Seq: v.seq,
+			UnAckSeq: v.unAckSeq, WindowSize: v.windowSize, Fragment: v.fragment, PrefixLen: v.prefixLen,
+			PayloadLen: v.payloadLen, SuffixLen: v.suffixLen, LEMode: v.lowEntropyMode, LEMask: v.lowEntropyMask,
+			ExtractedLen: v.extractedPayloadLen, LERot: v.lowEntropyMaskRotation}
+	}
+	return VerifC09Meta{}
+}
+
+// VerifC09MarshalSession calls sessionStruct.Marshal (the timestamp is taken from time.Now() by Marshal).
+func VerifC09MarshalSession(m VerifC09Meta) []byte { return m.session().Marshal() }
+
+// VerifC09MarshalDataAck calls dataAckStruct.Marshal.
+func VerifC09MarshalDataAck(m VerifC09Meta) []byte { return m.dataAck().Marshal() }
+
+// VerifC09UnmarshalSession calls sessionStruct.Unmarshal.
+func VerifC09UnmarshalSession(b []byte) (VerifC09Meta, error) {
+	ss := &sessionStruct{}
+	if err := ss.Unmarshal(b); err != nil {
+		return VerifC09Meta{}, err
+	}
+	return verifC09FromMetadata(ss), nil
+}
+
+// VerifC09UnmarshalDataAck calls dataAckStruct.Unmarshal.
+func VerifC09UnmarshalDataAck(b []byte) (VerifC09Meta, error) {
+	das := &dataAckStruct{}
+	if err := das.Unmarshal(b); err != nil {
+		return VerifC09Meta{}, err
+	}
+	return verifC09FromMetadata(das), nil
+}
+
+// VerifC09Classify exposes the protocol type predicates.
+func VerifC09Classify(p byte) (session, data, ack, dataAck, lowEntropy bool) {
+	t := protocolType(p)
+	return isSessionProtocol(t), isDataProtocol(t), isAckProtocol(t), isDataAckProtocol(t), isLowEntropyProtocol(t)
+}
+
+// VerifC09Seg is a segment as the session layer hands it to an underlay (metadata + plaintext payload).
+type VerifC09Seg struct {
+	Meta    VerifC09Meta
+	Payload []byte
+}
+
+func (s VerifC09Seg) segment(transport common.TransportProtocol) (*segment, error) {
+	seg := &segment{payload: append([]byte(nil), s.Payload...), transport: transport}
+	if isSessionProtocol(protocolType(s.Meta.Proto)) {
+		ss := s.Meta.session()
+		ss.payloadLen = uint16(len(s.Payload))
+		seg.metadata = ss
+		return seg, nil
+	}
+	if !isDataAckProtocol(protocolType(s.Meta.Proto)) {
+		return nil, fmt.Errorf("protocol %d has no metadata struct", s.Meta.Proto)
+	}
+	das := s.Meta.dataAck()
+	das.payloadLen = uint16(len(s.Payload))
+	if isLowEntropyProtocol(das.Protocol()) {
+		// as Session.Write does
+		pl, err := lowEntropyEncodedPayloadLen(len(s.Payload), appctlpb.LowEntropyMode(das.lowEntropyMode))
+		if err != nil {
+			return nil, err
+		}
+		das.payloadLen = pl
+		das.extractedPayloadLen = uint16(len(s.Payload))
+	}
+	seg.metadata = das
+	return seg, nil
+}
+
+func verifC09FromSegment(seg *segment) VerifC09Seg {
+	return VerifC09Seg{Meta: verifC09FromMetadata(seg.metadata), Payload: append([]byte(nil), seg.payload...)}
+}
+
+type verifC09Addr string
+
+func (a verifC09Addr) Network() string { return "verif" }
+func (a verifC09Addr) String() string  { return string(a) }
+
+// verifC09Conn is an in-memory net.Conn and net.PacketConn: writes are captured, reads come from
+// the bytes (datagrams) the harness fed. Reads never block: missing data is io.EOF.
+type verifC09Conn struct {
+	in       []byte
+	chunk    int // maximum bytes returned by one Read (0: no limit)
+	out      []byte
+	inPkts   [][]byte
+	outPkts  [][]byte
+	peerAddr net.Addr
+}
+
+func (c *verifC09Conn) Read(p []byte) (int, error) {
+	if len(c.in) == 0 {
+		return 0, io.EOF
+	}
+	n := len(p)
+	if c.chunk > 0 && n > c.chunk {
+		n = c.chunk
+	}
+	n = copy(p[:n], c.in)
+	c.in = c.in[n:]
+	return n, nil
+}
+func (c *verifC09Conn) Write(p []byte) (int, error) { c.out = append(c.out, p...); return len(p), nil }
+func (c *verifC09Conn) ReadFrom(p []byte) (int, net.Addr, error) {
+	if len(c.inPkts) == 0 {
+		return 0, nil, io.EOF
+	}
+	n := copy(p, c.inPkts[0])
+	c.inPkts = c.inPkts[1:]
+	return n, c.peerAddr, nil
+}
+func (c *verifC09Conn) WriteTo(p []byte, _ net.Addr) (int, error) {
+	c.outPkts = append(c.outPkts, append([]byte(nil), p...))
+	return len(p), nil
+}
+func (c *verifC09Conn) Close() error                     { return nil }
+func (c *verifC09Conn) LocalAddr() net.Addr              { return verifC09Addr("local") }
+func (c *verifC09Conn) RemoteAddr() net.Addr             { return c.peerAddr }
+func (c *verifC09Conn) SetDeadline(time.Time) error      { return nil }
+func (c *verifC09Conn) SetReadDeadline(time.Time) error  { return nil }
+func (c *verifC09Conn) SetWriteDeadline(time.Time) error { return nil }
+
+func verifC09Registry(users []*appctlpb.User) *serveruser.Registry {
+	r := &serveruser.Registry{}
+	m := map[string]*appctlpb.User{}
+	for _, u := range users {
+		m[u.GetName()] = u
+	}
+	r.SetUsers(m)
+	return r
+}
+
+// VerifC09Stream is a bare StreamUnderlay (no event loop, no sessions) over an in-memory connection:
+// writeOneSegment and readOneSegment are the real ones.
+type VerifC09Stream struct {
+	u    *StreamUnderlay
+	conn *verifC09Conn
+}
+
+// VerifC09NewClientStream: the client side; block must be in implicit-nonce mode.
+func VerifC09NewClientStream(block cipher.BlockCipher, mtu int, tp *appctlpb.TrafficPattern) *VerifC09Stream {
+	conn := &verifC09Conn{peerAddr: verifC09Addr("peer")}
+	return &VerifC09Stream{conn: conn, u: &StreamUnderlay{baseUnderlay: *newBaseUnderlay(true, mtu, tp), conn: conn, block: block}}
+}
+
+// VerifC09NewServerStream: the server side; the receive cipher is discovered from the first segment
+// with the real user registry, the send cipher is derived from it on the first write.
+func VerifC09NewServerStream(users []*appctlpb.User, mtu int, tp *appctlpb.TrafficPattern) *VerifC09Stream {
+	conn := &verifC09Conn{peerAddr: verifC09Addr("peer")}
+	return &VerifC09Stream{conn: conn, u: &StreamUnderlay{baseUnderlay: *newBaseUnderlay(false, mtu, tp), conn: conn, serverUsers: verifC09Registry(users)}}
+}
+
+// Write runs writeOneSegment and returns the bytes it put on the wire.
+func (s *VerifC09Stream) Write(seg VerifC09Seg) ([]byte, error) {
+	sg, err := seg.segment(common.StreamTransport)
+	if err != nil {
+		return nil, err
+	}
+	s.conn.out = nil
+	if err := s.u.writeOneSegment(sg); err != nil {
+		return nil, err
+	}
+	return s.conn.out, nil
+}
+
+// Feed appends bytes to what the peer "sent"; chunk bounds the size of one Read (0: unlimited).
+func (s *VerifC09Stream) Feed(b []byte, chunk int) {
+	s.conn.in = append(s.conn.in, b...)
+	s.conn.chunk = chunk
+}
+
+// Unread is the number of fed bytes readOneSegment has not consumed.
+func (s *VerifC09Stream) Unread() int { return len(s.conn.in) }
+
+// Read runs readOneSegment once.
+func (s *VerifC09Stream) Read() (VerifC09Seg, error) {
+	seg, err := s.u.readOneSegment()
+	if err != nil {
+		return VerifC09Seg{}, err
+	}
+	if seg == nil {
+		return VerifC09Seg{}, fmt.Errorf("readOneSegment returned no segment")
+	}
+	return verifC09FromSegment(seg), nil
+}
+
+// RecvUser is the user name the server side authenticated (block context of the receive cipher).
+func (s *VerifC09Stream) RecvUser() string {
+	if s.u.recv == nil {
+		return ""
+	}
+	return s.u.recv.BlockContext().UserName
+}
+
+// VerifC09Packet is a bare PacketUnderlay over an in-memory packet connection.
+type VerifC09Packet struct {
+	u    *PacketUnderlay
+	conn *verifC09Conn
+}
+
+// VerifC09NewClientPacket: the client side; block must be stateless.
+func VerifC09NewClientPacket(block cipher.BlockCipher, mtu int, tp *appctlpb.TrafficPattern) *VerifC09Packet {
+	conn := &verifC09Conn{peerAddr: verifC09Addr("peer")}
+	return &VerifC09Packet{conn: conn, u: &PacketUnderlay{baseUnderlay: *newBaseUnderlay(true, mtu, tp), conn: conn, block: block, serverAddr: conn.peerAddr}}
+}
+
+// VerifC09NewServerPacket: the server side with the real user registry.
+func VerifC09NewServerPacket(users []*appctlpb.User, mtu int, tp *appctlpb.TrafficPattern) *VerifC09Packet {
+	conn := &verifC09Conn{peerAddr: verifC09Addr("peer")}
+	return &VerifC09Packet{conn: conn, u: &PacketUnderlay{baseUnderlay: *newBaseUnderlay(false, mtu, tp), conn: conn, serverUsers: verifC09Registry(users)}}
+}
+
+// Write runs writeOneSegment; block is the cipher the server side would take from the session
+// (nil on the client side) and the result is the datagram.
+func (p *VerifC09Packet) Write(seg VerifC09Seg, block cipher.BlockCipher) ([]byte, error) {
+	sg, err := seg.segment(common.PacketTransport)
+	if err != nil {
+		return nil, err
+	}
+	sg.block = block
+	p.conn.outPkts = nil
+	if err := p.u.writeOneSegment(sg, p.conn.peerAddr); err != nil {
+		return nil, err
+	}
+	if len(p.conn.outPkts) != 1 {
+		return nil, fmt.Errorf("writeOneSegment sent %d datagrams", len(p.conn.outPkts))
+	}
+	return p.conn.outPkts[0], nil
+}
+
+// Read feeds one datagram and runs readOneSegment once. A dropped datagram makes readOneSegment
+// look for the next one, which the in-memory connection reports as an error.
+func (p *VerifC09Packet) Read(datagram []byte) (VerifC09Seg, cipher.BlockCipher, error) {
+	p.conn.inPkts = [][]byte{datagram}
+	seg, _, err := p.u.readOneSegment()
+	if err != nil {
+		return VerifC09Seg{}, nil, err
+	}
+	if seg == nil {
+		return VerifC09Seg{}, nil, fmt.Errorf("readOneSegment returned no segment")
+	}
+	return verifC09FromSegment(seg), seg.block, nil
+}
+
+// VerifC09LEEncode exposes encodeLowEntropyPayloadWithPaddingBit.
+func VerifC09LEEncode(src []byte, mode uint8, halfMask uint32, rotation uint8, paddingBit uint8) ([]byte, error) {
+	return encodeLowEntropyPayloadWithPaddingBit(src, appctlpb.LowEntropyMode(mode), halfMask, appctlpb.LowEntropyMaskRotation(rotation), paddingBit)
+}
+
+// VerifC09LEDecode exposes decodeLowEntropyPayload.
+func VerifC09LEDecode(encoded []byte, extractedPayloadLen int, mode uint8, halfMask uint32, rotation uint8) ([]byte, error) {
+	return decodeLowEntropyPayload(encoded, extractedPayloadLen, appctlpb.LowEntropyMode(mode), halfMask, appctlpb.LowEntropyMaskRotation(rotation))
+}
+
+// VerifC09LEPaddingBit is the host-stable padding bit of the production encoder.
+func VerifC09LEPaddingBit() uint8 { return lowEntropyPaddingBit }
+
+// VerifC09LowEntropyChunkLen is lowEntropyChunkLen.
+const VerifC09LowEntropyChunkLen = lowEntropyChunkLen
+
+// VerifC09LEParams exposes buildLowEntropyParams (0, 0 for an invalid mode).
+func VerifC09LEParams(mode int32) (sourceBytesPerChunk int, halfMaskOnes int) {
+	p, err := buildLowEntropyParams(appctlpb.LowEntropyMode(mode))
+	if err != nil {
+		return 0, 0
+	}
+	return p.sourceBytesPerChunk, p.halfMaskOnes
+}
